@@ -125,6 +125,10 @@ def drivers():
         r += pck[["v", "w"]][0][:]
         s = pck[[1, 2]][0]
         r += s[::-1] + s[[0, -1]] + [s[1]] + s[:]
+        # field SLICES that start after the first field: boxes named twice in one selection (whether the two tasks meet in one
+        # worker is the schedule's choice), a box read in the caller (integer index) and then again by the pool
+        t = pck[1:][0]
+        r += t[[0, -1, 0]] + [t[1]] + t[:] + pck[1:3][0][[1, 1]]
         return [harr(a) for a in r]
 
     @reg("reader.iterate")
